@@ -28,7 +28,7 @@ NOTE = ("Program = top-level forms: defuns of zza/zzb/zzc whose bodies are C01 t
   "mode: 0 Scope.Eval of each list form in order; 1 slip.Code + Code.Compile() + evaluation of the compiled objects; 2 the forms "
   "after the definitions evaluated 3 times (same list objects, so the in-place rewriting of the first evaluation is in effect); 3 "
   "compiled objects evaluated 3 times; 4 the whole sequence including the defuns evaluated twice. Symbolic: all literals "
-  "(arguments, recursion depth, tests), 64-bit; recursion bounded by <= 12 calls per program (assumed in the reference run). "
+  "(arguments, recursion depth, tests), 32-bit range; recursion bounded by <= 12 calls per program (assumed in the reference run). "
   "Oracle: zzRef evaluates the forms in schedule order with late binding of function names (no notion of compilation, caching or "
   "definition order for programs without redefinition); asserted: ordered trace, the value of every top-level evaluation, no "
   "condition, no Go fault. Stub: slip.ObjectString (message text only). Carve-out regions are computed by a small model of which "
